@@ -18,5 +18,7 @@ mod connection_pool;
 
 pub use connection::WriteCoalescingDelay;
 pub use connection_pool::PoolSize;
+#[cfg(scylla_verif)]
+pub(crate) use connection_pool::verif as connection_pool_verif;
 pub(crate) use connection_pool::{ConnectivityChangeEvent, NodeConnectionPool, PoolConfig};
 pub(crate) mod tls;
